@@ -16,14 +16,23 @@ HEADER = "From TV Require Import Base Model.Bus Model.Topics.\nFrom Coq Require 
 BUS_HEADER = "From TV Require Import Base Model.Bus."
 
 
-def run_bus(tab, ops):
-    """tab: {(consumer, value): [(topic, value), ...]}; ops: ('S', c, [topics]) | ('P', t, value)"""
-    from tickit.core.state_interfaces.internal import (InternalStateConsumer, InternalStateProducer,
-                                                        InternalStateServer)
-
+def reset_server():
+    from tickit.core.state_interfaces.internal import InternalStateServer
     server = InternalStateServer()
     server._topics.clear()
     server._subscribers.clear()
+
+
+def run_bus(tab, ops, lifetimes=False):
+    """tab: {(consumer, value): [(topic, value), ...]}; ops: ('S', c, [topics]) | ('P', t, value)
+    lifetimes: nobody but the bus's own users refers to the server; every message is produced by a producer of
+    its own which is dropped afterwards (a one-shot publisher), the garbage collector runs between operations --
+    what was published must still be replayed to whoever subscribes later"""
+    import gc
+    from tickit.core.state_interfaces.internal import (InternalStateConsumer, InternalStateProducer,
+                                                        InternalStateServer)
+
+    reset_server()
     recv = {}
     consumers = {}
     order_ok = True
@@ -49,26 +58,35 @@ def run_bus(tab, ops):
             topic_of[v] = t
 
     async def main():
-        prod = InternalStateProducer()
+        prod = None if lifetimes else InternalStateProducer()
+
+        async def produce(topic, v):
+            if lifetimes:
+                await InternalStateProducer().produce(topic, v)
+            else:
+                await prod.produce(topic, v)
 
         def mk(c):
             async def cb(value):
                 recv.setdefault(c, []).append((topic_of[value], value))
                 for t, v in tab.get((c, value), []):
-                    await prod.produce(f"t{t}", v)
+                    await produce(f"t{t}", v)
             return cb
 
         for o in ops:
             if o[0] == "S":
                 c = o[1]
+                if lifetimes and not consumers:
+                    gc.collect()
                 if c not in consumers:
                     consumers[c] = HC(c, mk(c))
                     recv.setdefault(c, [])
                 await consumers[c].subscribe([f"t{t}" for t in o[2]])
             else:
-                await prod.produce(f"t{o[1]}", o[2])
+                await produce(f"t{o[1]}", o[2])
 
     asyncio.run(main())
+    server = InternalStateServer()
     logs = {int(t[1:]): [m.value for m in ms] for t, ms in server._topics.items()}
     subs = {int(t[1:]): [c.idx for c in s] for t, s in server._subscribers.items() if s}
     for t, s in subs.items():
@@ -245,8 +263,8 @@ REASONS = {1: "logs-differ-from-model", 2: "received-sequences-differ-from-model
            20: "not-exactly-once-in-order", 31: "topic-name-differs-from-model", 32: "topics-of-distinct-components-collide"}
 
 
-def evaluate(cases):
-    obs = [run_bus(tab, ops) for tab, ops in cases]
+def evaluate(cases, lifetimes=False):
+    obs = [run_bus(tab, ops, lifetimes) for tab, ops in cases]
     terms = [render(tab, ops, o) for (tab, ops), o in zip(cases, obs)]
     return obs, run_shards(PID, BUS_HEADER, "case", "check", terms, shard_size=500)
 
@@ -273,6 +291,17 @@ def main(tier, seed):
                "higher topics); topic functions on generated name pairs incl. names containing the prefix/suffixes and special "
                "characters; non-trivial = has a replay (subscribe after produce) or a publishing handler")
     obs, bad = evaluate(cases)
+    # the same histories with one-shot producers and no outside reference to the server (object lifetimes must not
+    # decide what is replayed): the enumerated ones and a sample of the random ones
+    lt_cases = cases[:2 * n_ex][::3] + cases[2 * n_ex:][:300]
+    lt_obs, lt_bad = evaluate(lt_cases, lifetimes=True)
+    ck.evaluations += len(lt_cases)
+    ck.coverage["histories_with_one_shot_producers"] = len(lt_cases)
+    for i in sorted(lt_bad):
+        tab, ops = lt_cases[i]
+        ck.report(REASONS[lt_bad[i][0]] + "-with-one-shot-producers", f"InternalStateServer with short-lived producers: {REASONS[lt_bad[i][0]]}",
+                  dict(kind="bus", lifetimes=True, handlers=[[c, v, outs] for (c, v), outs in tab.items()], ops=ops, observed=lt_obs[i], codes=lt_bad[i]))
+        break
     for (tab, ops), o in zip(cases, obs):
         ck.count(json.dumps([sorted((list(k), v) for k, v in tab.items()), ops]), nontrivial(tab, ops, o))
         if not o["order_ok"]:
@@ -334,7 +363,7 @@ def replay(rp):
         return 1 if clash or input_topic(a) == output_topic(b) or input_topic(b) == output_topic(a) else 0
     tab = {(c, v): [tuple(x) for x in outs] for c, v, outs in rp["handlers"]}
     ops = [tuple(o) for o in rp["ops"]]
-    obs, bad = evaluate([(tab, ops)])
+    obs, bad = evaluate([(tab, ops)], lifetimes=bool(rp.get("lifetimes")))
     print("ops:", ops, "handlers:", tab)
     print("observed:", obs[0])
     print("codes:", bad.get(0, []))
